@@ -4,6 +4,7 @@ import re
 T = "RsslVerif.Thm.C03."
 TX = "RsslVerif.Thm.C03X."
 TD = "RsslVerif.Thm.C03D."
+TR = "RsslVerif.Thm.C03R."
 
 NONCONST = set("vrkun")
 
@@ -14,6 +15,9 @@ def nontrivial(req, obs):
         return True
     if f[0] in ("C03.type", "C03.typex"):
         return obs.count(" ") >= 1            # at least two typed nodes
+    if f[0] == "C03.ret":
+        # a template instantiated inside a function body, or more than one function, and at least one return statement
+        return len(f) == 2 and ("(st " in f[1] or "(ft " in f[1] or "(sm " in f[1]) and "(ret " in f[1]
     if f[0] == "C03.decl":
         # a named type carrying a modifier, or a modifier at the use site, and a declaration the checker accepts
         return len(f) == 7 and (f[3] not in ("-", "0") or f[4] != "-") and obs.startswith("decl ")
@@ -111,6 +115,18 @@ def finding_key(req, obs, detail):
 def shrink(req):
     """replace the statement's expression by one of its sub-expressions (as an expression statement)"""
     f = req.split("\t")
+    if f[0] == "C03.ret" and len(f) == 2:
+        # drop one parenthesised node (a statement, a method, a root definition) at a time
+        s = f[1]
+        starts = []
+        for i, c in enumerate(s):
+            if c == "(":
+                starts.append(i)
+            elif c == ")":
+                j = starts.pop()
+                if len(starts) >= 1:
+                    yield "C03.ret\t" + (s[:j].rstrip() + s[i + 1:]).replace("( ", "(")
+        return
     if f[0] == "C03.decl" and len(f) == 7:
         layers = [] if f[3] == "-" else f[3].split(",")
         for i in range(len(layers)):
@@ -191,6 +207,25 @@ def search(ctx):
             reqs.append("C03.prog\t%s\t-/s.Float32\t(init %s %s)\tany" % (env, t, x))
     reqs += search_ext()
     reqs += search_decl()
+    reqs += search_ret()
+    return reqs
+
+
+def search_ret():
+    """returns after an instantiation episode: every function return type x every type the last method / the function
+    template returns x episode form x a value of every type (and a bare return), directly after the episode and in a block"""
+    reqs = []
+    types = ["f", "i", "b", "f2", "i2", "s0", "s1", "v"]
+    vals = ["f", "i2", "s0", "s1", "-"]
+    for outer in types:
+        for last in types + ["T"]:
+            lv = "-" if last == "v" else last
+            for v in vals:
+                for form in ("local", "cast", "sizeof", "init"):
+                    reqs.append("C03.ret\t(prog (fn %s (st %s s0 (m %s (ret %s))) (ret %s)))" % (outer, form, last, lv, v))
+                reqs.append("C03.ret\t(prog (fn %s (st local f (m i (ret i)) (m %s (ret %s))) (if (ret %s))))" % (outer, last, lv, v))
+                reqs.append("C03.ret\t(prog (fn %s (ft %s s1 (ret %s)) (ret %s)))" % (outer, last, lv, v))
+                reqs.append("C03.ret\t(prog (fn %s (ft f i (st cast T (m %s (ret %s))) (ret i)) (ret %s)))" % (outer, last, lv, v))
     return reqs
 
 
@@ -248,8 +283,8 @@ def search_ext():
 
 SPEC = {
     "id": "C03",
-    "gens": ["RankTable", "TypingTables", "IntrinsicSigs", "ElabTables", "TypeMods"],
-    "lean_modules": ["RsslVerif.Thm.C03", "RsslVerif.Thm.C03X", "RsslVerif.Thm.C03D"],
+    "gens": ["RankTable", "TypingTables", "IntrinsicSigs", "ElabTables", "TypeMods", "RetScope"],
+    "lean_modules": ["RsslVerif.Thm.C03", "RsslVerif.Thm.C03X", "RsslVerif.Thm.C03D", "RsslVerif.Thm.C03R"],
     "theorems": [T + n for n in [
         "find_sound", "find_rejects_rvalue_to_lvalue", "find_keeps_const",
         "elab_sound", "elab_debug_check_redundant", "elabStmt_sound", "ids_in_range",
@@ -287,7 +322,11 @@ SPEC = {
         "parse_type_for_usage_as_modelled", "mergeModifiers_flag", "declared_modifier_is_union_of_layers",
         "typedef_const_survives_use_site_modifiers", "typedef_modifiers_survive_use_site_modifiers",
         "struct_member_const_comes_from_the_type", "declared_modifier_consistent", "conflicting_modifiers_rejected",
-        "typedef_const_write_rejected", "mutant_discipline_drops_typedef_const"]],
+        "typedef_const_write_rejected", "mutant_discipline_drops_typedef_const"]] + [TR + n for n in [
+        # a return is checked against the return type of the function that contains it, whatever was instantiated before it
+        "returnTypeComesFromTheScopeChain", "return_type_is_enclosing_functions", "direct_returns_get_the_functions_type",
+        "accepted_returns_are_returnable", "elab_rejects_unconvertible_return_after_instantiations",
+        "methods_return_their_own_types"]],
     "harness": "c03",
     "nontrivial": nontrivial,
     "finding_key": finding_key,
@@ -324,7 +363,21 @@ SPEC = {
                   "(parse_type_for_usage_as_modelled); the discipline of seeded mutant C03-5 is a decide-checked negation witness. "
                   "A swizzle of a scalar or a vector names at most four components (fix c805c03: the former negation witness is "
                   "now the rejection theorem elab_rejects_swizzle_longer_than_four; the judgment demands at most four slots of every "
-                  "swizzle node, so elab_sound gives it for every accepted program); no negation witness against the code is left.",
+                  "swizzle node, so elab_sound gives it for every accepted program); no negation witness against the code is left. "
+                  "Return statements and re-entrant body checking (Model/RetScope, Thm.C03R): the return type lives in the scope "
+                  "pushed for the function (ScopeData::function_return_type) and a return asks the scope chain for the innermost one; "
+                  "naming a struct template with new arguments, or calling a function template, in the middle of a function body "
+                  "checks the method bodies / the instance body right there (save current_scope, jump to the template's scope, push / "
+                  "re-enter, pop, restore). Proved by mutual structural induction over statements, bodies and method lists, for any "
+                  "number of instantiations, methods and nesting depth: an accepted body leaves the scope chain as it found it and "
+                  "its checked returns are exactly those of a purely structural reference semantics in which a return belongs to the "
+                  "function node that textually contains it (return_type_is_enclosing_functions); every direct return of a function "
+                  "is converted to that function's type whatever was instantiated before it; every accepted return is returnable from "
+                  "its own function; a body with an unconvertible direct return after any episodes is never accepted. The source facts "
+                  "(get_current_return_type = search_scopes over function_return_type, search_scopes walks parents, revisit_function "
+                  "only re-enters the scope, the two writers and the one caller of set_function_return_type, both return arms ask "
+                  "get_current_return_type, the field list of Context, both instantiation paths restore current_scope) are re-extracted "
+                  "(Gen.RetScope) and decided in returnTypeComesFromTheScopeChain; seeded mutant C03-6 falsifies it.",
     "rule": "C03.conv = one row of the exhaustive find/get_target_type table over 8 scalar kinds x {scalar, vec1-4, 2 matrices} "
             "+ enums + structs x modifier sets x {lvalue,rvalue}. C03.prog = (local variable types, function prototypes, return "
             "type, one statement) compiled as an RSSL program through the real type_check: every unary operator on every "
@@ -348,6 +401,16 @@ SPEC = {
             "decides constness from the keywords of the request alone (const on any layer or at the use site) and fails every "
             "accepted write to such an object: each keyword carried by a typedef x 8 use-site sets x 5 storages x 4 write forms on "
             "6 base types, 37 chains x 20 use-site sets with both carriers, and random points of the whole product. "
+            "C03.ret = a program tree (free functions, ordinary structs with methods, and inside bodies: return of a value of "
+            "each of 7 types or bare, nested blocks, struct templates with 0-3 methods named for the first time as a local "
+            "declaration / twice / with initialiser / in a cast / in sizeof, function templates called with explicit arguments, "
+            "template argument and return types possibly the enclosing template's T, nested to depth 3) spelled as an RSSL "
+            "program; observation = per function the types of its Return expressions, or the diagnostic with got / want types; the "
+            "oracle decides from the request alone which function a return belongs to and whether its operand is returnable: an "
+            "ill-typed program must be rejected, every Return of an accepted program has exactly its own function's declared "
+            "type: 4 (thorough 8) function types x 5 (9) last-method types x 5 forms x arguments x well- and ill-typed operands "
+            "directly after the episode and in a block, function-template and ordinary-struct controls, two-level nestings with "
+            "the ill-typed return at each level, 1 500 (12 000) random trees. "
             "C03.src = a raw program (reproducers with buffers / cbuffers), oracle only. non-trivial = a statement containing an "
             "operator, call, projection, constructor, definition or control statement.",
     "trusted_base": [
@@ -375,6 +438,16 @@ SPEC = {
         "Spec/ElabX.lean (StmtsTyped, InitTyped, RetExact, projection chains; MutablePlace / ConstTy / ProjOf) is our reading of "
         "'every initialiser, return ... receives operands of exactly the types it requires' and of 'write to const or non-lvalue "
         "expressions'",
+        "tools/gens/c03.py RetScope: pinned bodies of get_current_return_type / search_scopes / revisit_function / revisit_scope / "
+        "set_function_return_type, the writers of function_return_type and the callers of set_function_return_type / "
+        "get_current_return_type over typer/src/**, the fields of struct Context, the save / jump / restore statements of "
+        "ensure_struct_template and build_function_template_body, parse_function_body's revisit / pop",
+        "hand-written Model/RetScope.lean (the scope arena seen as the chain search_scopes walks; frames carry "
+        "function_return_type and the binding of T; instantiation episodes; the declaration-or-expression fallback; conversion "
+        "restricted to float / int / bool / float2 / int2 / two structs / void) — tied by the C03.ret correspondence; "
+        "Thm.C03R.specItems (a return belongs to the function node that contains it) is our reading of 'every return receives an "
+        "operand of exactly the type it requires'; the C03.ret oracle (harness/src/c03/ret.rs) decides ownership and "
+        "returnability from the request tree, never from the module's signatures",
         "the C03.decl oracle (harness/src/c03/decl.rs) reads constness off the keywords written in the request (typedef layers, "
         "template argument, use site), never off a type the checker registered",
         "the harness oracle (harness/src/c03.rs: check rules of Walk::expr, the declaration-based write oracle Walk::place) is "
@@ -392,6 +465,10 @@ SPEC = {
         "in-out / interpolation / precise keywords next to type modifiers, cbuffer members and return types are not generated "
         "by C03.decl; Walk::place still reads the registered type of a variable for programs of the other streams (they "
         "declare every type directly, where registered type = written type is what C03.decl checks with an empty chain)",
+        "C03.ret: templates are declared at the root scope (no namespaces), one type parameter, methods without parameters, "
+        "function templates called with explicit template arguments; the operand of a return is a global / the member v / the "
+        "parameter x (its elaboration is the other streams' business); method signatures are parsed before the bodies (an "
+        "unresolvable T in a later signature is outside the model: `unsupported`)",
         "variables of the generated programs have unique names v<i>; a definition declares one variable; user function "
         "parameters are not arrays",
         "signature parameter types carry no modifier: strip_param_type is mirrored by ElabX.stripParamType (applied by the "
